@@ -28,6 +28,8 @@ pub enum POp {
   Yield,
   Convert,
   Close,
+  /// async handles: start a send, poll it once, yield, then drop the future if still pending
+  SendCancel,
 }
 
 #[derive(Clone, Debug, Serialize, Deserialize, PartialEq)]
@@ -43,6 +45,8 @@ pub enum COp {
   Yield,
   Convert,
   Close,
+  /// async handles: start a receive, poll it once, yield, then drop the future if still pending
+  RecvCancel,
 }
 
 #[derive(Clone, Debug, Serialize, Deserialize)]
@@ -55,6 +59,11 @@ pub struct Scenario {
   pub consumers: Vec<(Vec<COp>, bool)>,
   pub seed: u64,
   pub schedules: usize,
+  /// balanced mode: only blocking forms, consumers receive exactly as many values as the
+  /// producers send, and every handle is kept alive until all threads are done — so no
+  /// blocked operation is ever rescued by a disconnect: termination rests on wakeups alone
+  #[serde(default)]
+  pub balanced: bool,
 }
 
 pub fn flavours_for(prop: &str) -> Vec<Flavour> {
@@ -104,6 +113,7 @@ fn pop_strategy(f: Flavour) -> BoxedStrategy<POp> {
     (1, Just(POp::Yield).boxed()),
     (1, Just(POp::Convert).boxed()),
     (1, Just(POp::Close).boxed()),
+    (2, Just(POp::SendCancel).boxed()),
   ];
   proptest::strategy::Union::new_weighted(opts.into_iter().filter(|(w, _)| *w > 0).collect()).boxed()
 }
@@ -122,6 +132,7 @@ fn cop_strategy(f: Flavour) -> BoxedStrategy<COp> {
     (1, Just(COp::Yield).boxed()),
     (1, Just(COp::Convert).boxed()),
     (1, Just(COp::Close).boxed()),
+    (2, Just(COp::RecvCancel).boxed()),
   ];
   proptest::strategy::Union::new_weighted(opts.into_iter().filter(|(w, _)| *w > 0).collect()).boxed()
 }
@@ -137,9 +148,54 @@ pub fn scenario_strategy(flavours: Vec<Flavour>, prop: &str, schedules: usize) -
         proptest::collection::vec(proptest::collection::vec(pop_strategy(f), plen), 1..=maxp),
         proptest::collection::vec((proptest::collection::vec(cop_strategy(f), 0..6), proptest::bool::weighted(0.6)), 1..=maxc),
       )
-        .prop_map(move |(producers, consumers)| Scenario { flavour: f, async_start: a, cap, producers, consumers, seed, schedules })
+        .prop_map(move |(producers, consumers)| {
+          let balanced = seed % 3 == 0 && f != Flavour::Oneshot;
+          let mut s = Scenario { flavour: f, async_start: a, cap, producers, consumers, seed, schedules, balanced };
+          if balanced {
+            normalise_balanced(&mut s);
+          }
+          s
+        })
     })
     .boxed()
+}
+
+/// Balanced mode keeps only the blocking send forms (their item counts are certain) and drops
+/// closes / cancels; consumers' op lists become the cycle of receive styles they use.
+fn normalise_balanced(s: &mut Scenario) {
+  for p in s.producers.iter_mut() {
+    for op in p.iter_mut() {
+      *op = match op.clone() {
+        POp::TrySend | POp::TrySendSpin(_) | POp::SendCancel | POp::Close => POp::Send,
+        POp::TrySendBatch(n) => POp::SendBatch(n),
+        POp::TrySendBatchMut(n) => POp::SendBatchMut(n),
+        o => o,
+      };
+    }
+  }
+  for (c, drain) in s.consumers.iter_mut() {
+    *drain = false;
+    for op in c.iter_mut() {
+      *op = match op.clone() {
+        COp::TryRecv | COp::Close | COp::RecvCancel => COp::Recv,
+        COp::TryRecvBatch(n) => COp::RecvBatch(n.max(1)),
+        COp::RecvBatch(n) => COp::RecvBatch(n.max(1)),
+        COp::RecvBatchMut(n) => COp::RecvBatchMut(n.max(1)),
+        o => o,
+      };
+    }
+    if c.iter().all(|o| matches!(o, COp::Yield | COp::Convert)) {
+      c.push(COp::Recv);
+    }
+  }
+}
+
+fn balanced_total(s: &Scenario) -> usize {
+  s.producers.iter().flatten().map(|o| match o {
+    POp::Send => 1,
+    POp::SendBatch(n) | POp::SendBatchMut(n) => if s.flavour.has_batch() { *n as usize } else { 0 },
+    _ => 0,
+  }).sum()
 }
 
 // ---------------------------------------------------------------------------------------------
@@ -380,7 +436,7 @@ fn block_on<O>(mut f: BoxFut<'_, O>) -> O {
   }))
 }
 
-fn producer_thread(env: Arc<Env>, p: usize, mut h: Box<dyn Tx>, ops: Vec<POp>) {
+fn producer_thread(env: Arc<Env>, p: usize, mut h: Box<dyn Tx>, ops: Vec<POp>) -> Option<Box<dyn Tx>> {
   let mut seq = 0u32;
   let mut closed = false;
   let mut fresh = |n: usize, reg: &Arc<Registry>| -> Vec<Pay> {
@@ -413,7 +469,23 @@ fn producer_thread(env: Arc<Env>, p: usize, mut h: Box<dyn Tx>, ops: Vec<POp>) {
           closed = true;
         }
       }
-      POp::Send | POp::TrySend | POp::TrySendSpin(_) => {
+      POp::SendCancel if caps.futures => {
+        let v = fresh(1, &env.reg).pop().unwrap();
+        let id = v.id;
+        env.send_start(p, &[id]);
+        let mut f = h.send_fut(v);
+        match poll_once_detached(&mut f) {
+          Some(Ok(())) => env.send_done("send_fut", &[id]),
+          Some(Err(_)) => env.send_failed(true),
+          None => {
+            shuttle::thread::yield_now();
+            // cancelled: the value goes with the future; whether it was delivered is open
+            drop(f);
+            env.send_failed(false);
+          }
+        }
+      }
+      POp::Send | POp::TrySend | POp::TrySendSpin(_) | POp::SendCancel => {
         let mut v = fresh(1, &env.reg).pop().unwrap();
         let id = v.id;
         env.send_start(p, &[id]);
@@ -424,7 +496,7 @@ fn producer_thread(env: Arc<Env>, p: usize, mut h: Box<dyn Tx>, ops: Vec<POp>) {
             Err(_) => env.send_failed(false),
           }
           env.producer_gone(p);
-          return;
+          return None;
         }
         let blocking = matches!(op, POp::Send);
         if blocking {
@@ -509,11 +581,32 @@ fn producer_thread(env: Arc<Env>, p: usize, mut h: Box<dyn Tx>, ops: Vec<POp>) {
       }
     }
   }
+  if env.s.balanced {
+    return Some(h); // kept alive until every thread is done
+  }
   env.producer_gone(p);
   drop(h);
+  None
 }
 
-fn consumer_thread(env: Arc<Env>, c: usize, mut h: Box<dyn Rx>, ops: Vec<COp>, drain: bool) {
+struct FlagWaker(std::sync::atomic::AtomicBool);
+impl std::task::Wake for FlagWaker {
+  fn wake(self: Arc<Self>) {
+    self.0.store(true, std::sync::atomic::Ordering::SeqCst);
+  }
+}
+
+/// poll a future once with a waker nobody listens to; `None` = still pending
+fn poll_once_detached<O>(f: &mut BoxFut<'_, O>) -> Option<O> {
+  let w = std::task::Waker::from(Arc::new(FlagWaker(std::sync::atomic::AtomicBool::new(false))));
+  let mut cx = std::task::Context::from_waker(&w);
+  match f.as_mut().poll(&mut cx) {
+    std::task::Poll::Ready(o) => Some(o),
+    std::task::Poll::Pending => None,
+  }
+}
+
+fn consumer_thread(env: Arc<Env>, c: usize, mut h: Box<dyn Rx>, ops: Vec<COp>, drain: bool) -> Option<Box<dyn Rx>> {
   let mut closed = false;
   let mut do_recv = |h: &Box<dyn Rx>, kind: u8, arg: usize, closed: bool| -> bool {
     // returns true if Disconnected was observed
@@ -545,6 +638,29 @@ fn consumer_thread(env: Arc<Env>, c: usize, mut h: Box<dyn Rx>, ops: Vec<COp>, d
           }
           Err(k) => {
             env.recv_empty(slot, k == 2);
+            false
+          }
+        }
+      }
+      // 8: start an async receive, poll it once, yield, drop it if still pending
+      8 => {
+        let slot = env.recv_start(c, 1);
+        let mut f = h.recv_fut();
+        match poll_once_detached(&mut f) {
+          Some(Ok(v)) => {
+            drop(f);
+            env.recv_done("recv_fut", c, slot, &[v.id]);
+            false
+          }
+          Some(Err(_)) => {
+            drop(f);
+            env.recv_disconnected("recv_fut", c, slot, closed);
+            true
+          }
+          None => {
+            shuttle::thread::yield_now();
+            drop(f);
+            env.recv_empty(slot, false);
             false
           }
         }
@@ -608,6 +724,48 @@ fn consumer_thread(env: Arc<Env>, c: usize, mut h: Box<dyn Rx>, ops: Vec<COp>, d
     }
   };
   let oneshot = env.s.flavour == Flavour::Oneshot;
+  if env.s.balanced {
+    // receive exactly this consumer's share, cycling through the generated receive styles
+    let total = balanced_total(&env.s);
+    let nc = env.s.consumers.len();
+    let quota = if env.s.flavour == Flavour::Broadcast { total } else { total / nc + if c < total % nc { 1 } else { 0 } };
+    let got = |env: &Env| env.log.lock().unwrap().recvs.iter().filter(|r| r.0 == c).map(|r| r.4.len()).sum::<usize>();
+    let mut i = 0usize;
+    let mut guard = 0usize;
+    while got(&env) < quota && !env.failed() {
+      guard += 1;
+      if guard > 4_000 {
+        break;
+      }
+      let left = quota - got(&env);
+      let op = ops[i % ops.len()].clone();
+      i += 1;
+      let disc = match op {
+        COp::Yield => {
+          shuttle::thread::yield_now();
+          false
+        }
+        COp::Convert => {
+          h = match h.convert() {
+            Ok(n) => n,
+            Err(o) => o,
+          };
+          false
+        }
+        COp::RecvTimeout(z) => do_recv(&h, if z { 2 } else { 3 }, 0, false),
+        COp::Next => do_recv(&h, 4, 0, false),
+        COp::RecvBatch(n) => do_recv(&h, 5, (n as usize).min(left).max(1), false),
+        COp::RecvBatchMut(n) => do_recv(&h, 7, (n as usize).min(left).max(1), false),
+        _ => do_recv(&h, 0, 0, false),
+      };
+      if disc {
+        // nobody has dropped a handle yet
+        env.log.lock().unwrap().fail(Failure::new("C04", sig(&env.s, "balanced", "disconnected_with_live_sender"), format!("consumer {c} observed Disconnected although every producer handle is still alive")));
+        break;
+      }
+    }
+    return Some(h);
+  }
   for op in ops {
     if env.failed() {
       break;
@@ -629,6 +787,16 @@ fn consumer_thread(env: Arc<Env>, c: usize, mut h: Box<dyn Rx>, ops: Vec<COp>, d
           let _ = h.close();
           closed = true;
           env.consumer_gone(c);
+        }
+      }
+      COp::RecvCancel => {
+        // known finding F05 (open): a fulfilled rendezvous receive that is dropped loses the
+        // value — excluded by construction, the receive is completed instead
+        let f05 = env.s.flavour.rendezvous() && crate::finding_open("F05-rendezvous-cancelled-fulfilled-recv-loses-value");
+        if h.caps().futures && !closed && !f05 {
+          do_recv(&h, 8, 0, closed);
+        } else {
+          do_recv(&h, 1, 0, closed);
         }
       }
       COp::Recv => {
@@ -673,6 +841,7 @@ fn consumer_thread(env: Arc<Env>, c: usize, mut h: Box<dyn Rx>, ops: Vec<COp>, d
   }
   drop(h);
   env.consumer_gone(c);
+  None
 }
 
 struct ExecOut {
@@ -746,18 +915,34 @@ fn run_many(s: &Scenario, seeds: Vec<u64>) -> Vec<ExecOut> {
         rxs.push(r0.try_clone().expect("multi-consumer flavour"));
       }
       rxs.insert(0, r0);
-      let mut joins = Vec::new();
+      let mut pjoins = Vec::new();
+      let mut cjoins = Vec::new();
       for (p, (h, ops)) in txs.into_iter().zip(s.producers.iter().cloned()).enumerate() {
         let e = env.clone();
-        joins.push(shuttle::thread::spawn(move || producer_thread(e, p, h, ops)));
+        pjoins.push(shuttle::thread::spawn(move || producer_thread(e, p, h, ops)));
       }
       for (c, (h, (ops, drain))) in rxs.into_iter().zip(s.consumers.iter().cloned()).enumerate() {
         let e = env.clone();
-        joins.push(shuttle::thread::spawn(move || consumer_thread(e, c, h, ops, drain)));
+        cjoins.push(shuttle::thread::spawn(move || consumer_thread(e, c, h, ops, drain)));
       }
-      for j in joins {
-        let _ = j.join();
+      // balanced mode: the handles come back and are dropped only now
+      let mut kept_tx = Vec::new();
+      let mut kept_rx = Vec::new();
+      for j in pjoins {
+        if let Ok(Some(h)) = j.join() {
+          kept_tx.push(h);
+        }
       }
+      for j in cjoins {
+        if let Ok(Some(h)) = j.join() {
+          kept_rx.push(h);
+        }
+      }
+      for (p, h) in kept_tx.into_iter().enumerate() {
+        env.producer_gone(p);
+        drop(h);
+      }
+      drop(kept_rx);
       parks.store(fibre::verif::park_count() + PENDING_POLLS.with(|c| c.get()), std::sync::atomic::Ordering::Relaxed);
       if log.lock().unwrap().failure.is_some() {
         stop2.store(true, std::sync::atomic::Ordering::Relaxed);
@@ -833,7 +1018,7 @@ fn judge(s: &Scenario, st: ExecState, panic_msg: Option<String>, drainer_exists:
   if s.flavour != Flavour::Broadcast {
     // C01 — "each value whose send reports success is returned by exactly one successful
     // receive provided some receiver keeps receiving until it observes Disconnected"
-    if drainer_exists {
+    if drainer_exists || s.balanced {
       let lost: Vec<u32> = l.sends.iter().filter(|(id, e)| e.3 && !received.contains(id)).map(|(id, _)| *id).collect();
       if !lost.is_empty() {
         out.failure = Some(Failure::new("C01", sig(s, "conservation", "lost_value"), format!("schedule seed {seed}: {} value(s) whose send reported Ok were never received although a consumer drained to Disconnected: {:?}", lost.len(), &lost[..lost.len().min(6)])));
